@@ -491,6 +491,12 @@ func genParams(t *rapid.T, arg *TypeDesc) *string {
 			if len(elems) > 0 {
 				elems[rapid.IntRange(0, len(elems)-1).Draw(t, "wrongpos")] = `{"unexpected":[1]}`
 			}
+		case 3:
+			// a null at some position: for most field types a no-op, for a raw
+			// message or a self-decoding type it is a value like any other
+			if len(elems) > 0 {
+				elems[rapid.IntRange(0, len(elems)-1).Draw(t, "nullpos")] = `null`
+			}
 		}
 		return p("[" + strings.Join(elems, ",") + "]")
 	}
